@@ -17,9 +17,10 @@ correspondence on integer-valued operands (harness/c05.py).
     the early-contraction identity (`einsum_contract_early`), the induction over ANY path for the loop of `einsum`
     (`einsum_loop_correct`, `einsum_correct_partial`), the declining cases, and that the strict ranking of the fixed
     ordered_indices can never trigger the tie guard (`einsum_fixed_order_never_ties`).
-    MISSING for the full statement: the wrapper around the loop — `replace_ellipsis` (a renaming), the removal of the
-    size-1 axes before the loop and the final reshape that re-inserts them, and numpy-style broadcasting of a label
-    that has size 1 in one operand and n in another; these are covered by the exact correspondence only. -/
+    The full statement — the wrapper around the loop (`replace_ellipsis`, the removal of the size-1 axes before the
+    loop and the final reshape that re-inserts them) and numpy-style broadcasting of a label that has size 1 in one
+    operand and n in another — is proved in `Props/C05b.lean` (`C05b.einsum_correct`); the theorems of this file
+    are the non-broadcast core it was built from and are kept. -/
 -/
 namespace TfPwaV.C05
 open TfPwaV.Einsum
